@@ -43,7 +43,7 @@ pub fn check_utf8(s: &Schema, m: &DynMsg, bad: &mut Vec<String>) {
 pub fn exec(verb: &str, items: &[Sexp], o: &mut Oracle) -> Option<String> {
     let a = |i: usize| items.get(i).and_then(|x| x.atom());
     let bad = || Some("bad-request".to_string());
-    let bt = match a(1) { Some("bt") => true, Some("hm") => false, _ => return if matches!(verb, "pbenc" | "pbdec" | "pbmrg" | "pbdld" | "pbcat" | "pbunk" | "pbilv") { bad() } else { None } };
+    let bt = match a(1) { Some("bt") => true, Some("hm") => false, _ => return if matches!(verb, "pbenc" | "pbdec" | "pbmrg" | "pbdld" | "pbcat" | "pbunk" | "pbilv" | "pbgrpenc" | "pbgrpdec") { bad() } else { None } };
     Some(match verb {
         "pbenc" | "pbcat" => {
             if a(2) != Some(flag_name()) { return Some("bad-flag".into()) }
@@ -108,6 +108,37 @@ pub fn exec(verb: &str, items: &[Sexp], o: &mut Oracle) -> Option<String> {
                     if !badstr.is_empty() { o.fail("C10", format!("decoded message holds a string that is not UTF-8: {}", badstr[0])); }
                     if verb == "pbdld" { format!("ok {} rem={}", m_sexp(&m), rem) } else { format!("ok {}", m_sexp(&m)) }
                 }
+                Err(e) => class(&e),
+            }
+        }
+        "pbgrpenc" => {
+            // pbgrpenc <fl> <flag> <schema> <i> <tag> <msg>  -> ok <hex|~> len=<n>   (prost::encoding::group::{encode, encoded_len, merge})
+            if a(2) != Some(flag_name()) { return Some("bad-flag".into()) }
+            let (Some(s), Some(i), Some(tag)) = (items.get(3).and_then(Schema::of_sexp), a(4).and_then(|x| x.parse::<usize>().ok()), a(5).and_then(|x| x.parse::<u32>().ok())) else { return bad() };
+            let s = Arc::new(s);
+            let Some(m) = items.get(6).and_then(|x| m_of_sexp(&s, i, bt, x)) else { return bad() };
+            let mut b = BytesMut::new();
+            pilota::prost::encoding::group::encode(tag, &m, &mut b);
+            let l = pilota::prost::encoding::group::encoded_len(tag, &m);
+            if l != b.len() { o.fail("C05", format!("group::encoded_len {} != {} bytes written", l, b.len())); }
+            let mut rd = b.clone().freeze();
+            let mut back = DynMsg::new(&s, i, bt);
+            let r = pilota::prost::encoding::decode_key(&mut rd).and_then(|(t, w)| { if t != tag { o.fail("C05", format!("group tag read back {}", t)); } pilota::prost::encoding::group::merge(tag, w, &mut back, &mut rd, Default::default()) });
+            match r {
+                Ok(()) if (m_same(&m, &back) || (!FLAG_ON && m_same(&norm_negzero(&m), &back))) && !rd.has_remaining() => {}
+                other => o.fail("C05", format!("group::merge(group::encode x): {:?} {} rem {}", other.map_err(|e| e.to_string()), m_sexp(&back), rd.remaining())),
+            }
+            let shown = if !bt && multi_entry(&m) { "~".to_string() } else { hex(&b) };
+            format!("ok {} len={}", shown, l)
+        }
+        "pbgrpdec" => {
+            // pbgrpdec <fl> <schema> <i> <tag> <hex>  (hex: what follows the start-group key)  -> ok <msg> rem=<n> | err | depth
+            let (Some(s), Some(i), Some(tag), Some(input)) = (items.get(2).and_then(Schema::of_sexp), a(3).and_then(|x| x.parse::<usize>().ok()), a(4).and_then(|x| x.parse::<u32>().ok()), a(5).and_then(unhex)) else { return bad() };
+            let s = Arc::new(s);
+            let mut rd = Bytes::from(input);
+            let mut m = DynMsg::new(&s, i, bt);
+            match pilota::prost::encoding::group::merge(tag, pilota::prost::encoding::WireType::StartGroup, &mut m, &mut rd, Default::default()) {
+                Ok(()) => format!("ok {} rem={}", m_sexp(&m), rd.remaining()),
                 Err(e) => class(&e),
             }
         }
@@ -247,6 +278,12 @@ pub fn gen_message_level(r: &mut Rng, thorough: bool, out: &mut Vec<String>) {
             m.encode_raw(&mut b);
             out.push(format!("pbdec {} {} {} {}", fl, s.sexp(), i, hex(&b)));
             if k % 3 == 0 { out.push(format!("pbdld {} {} {} {}", fl, s.sexp(), i, hex(&m.encode_length_delimited_to_vec()))); }
+            if k % 4 == 1 {
+                let tag = gen_tag(r);
+                out.push(format!("pbgrpenc {} {} {} {} {} {}", fl, flag_name(), s.sexp(), i, tag, m_sexp(&m)));
+                let mut g = b.to_vec(); super::rtverbs::put_key(tag, 4, &mut g); g.extend([0x55u8, 0x66]);
+                out.push(format!("pbgrpdec {} {} {} {} {}", fl, s.sexp(), i, tag, hex(&g)));
+            }
         }
     }
 }
